@@ -25,33 +25,34 @@ let opt_str = function A "-" -> None | a -> Some (str a)
 let request_of (req : t) (drv : t) : request =
   match req, drv with
   | L (A "req" :: m :: p :: depth :: ow :: _dest :: ctype :: im :: inm :: body :: _fail :: _pfb :: _cancel),
-    L [A "drv"; dk; dp; dim; dinm; pff; stamp; dirtag; bfails] ->
+    L [A "drv"; dk; dp; dim; dinm; pff; stamp; dirtag; bfails; L (A "mime" :: mt); sniffed] ->
     { meth = str m; rpath = str p; h_depth = str depth; h_overwrite = str ow;
       h_dest = (match dk with A "absent" -> DestAbsent | A "bad" -> DestBad | A "path" -> DestPath (str dp) | _ -> raise (Parse_error "dest"));
       h_ctype = str ctype; h_if_match = str im; h_if_none_match = str inm;
       d_if_match = opt_str dim; d_if_none_match = opt_str dinm;
       body = str body; body_fails = bool_ bfails;
       pf = (match pff with A "allprop" -> PfAllProp | A "propname" -> PfPropName | A "none" -> PfNone | A "bad" -> PfBad | _ -> raise (Parse_error "pf"));
-      stamp = n_of_int (int_ stamp); dir_tag = str dirtag }
+      stamp = n_of_int (int_ stamp); dir_tag = str dirtag;
+      mime_tab = List.map (function L [e; t] -> (str e, str t) | _ -> raise (Parse_error "mime")) mt; sniffed = str sniffed }
   | _ -> raise (Parse_error "req/drv")
 
 let entry_of = function
-  | L [A "e"; href; d; clen; etag; lm; v] ->
-    { me_href = str href; me_dir = bool_ d; me_clen = str clen; me_etag = str etag; me_lastmod = bool_ lm; me_values = bool_ v }
+  | L [A "e"; href; d; clen; etag; lm; v; ct] ->
+    { me_href = str href; me_dir = bool_ d; me_clen = str clen; me_etag = str etag; me_lastmod = bool_ lm; me_values = bool_ v; me_ctype = str ct }
   | _ -> raise (Parse_error "entry")
 
 let response_of = function
-  | L [A "obs"; st; allow; dav; body; clen; etag; lm; L (A "ms" :: es); leak] ->
+  | L [A "obs"; st; allow; dav; body; clen; etag; lm; L (A "ms" :: es); leak; ctype] ->
     Some { status = n_of_int (int_ st); r_allow = str allow; r_dav = str dav; r_body = opt_str body; r_clen = str clen;
-           r_etag = str etag; r_lastmod = bool_ lm; r_ms = List.map entry_of es; r_leak = bool_ leak }
+           r_etag = str etag; r_lastmod = bool_ lm; r_ms = List.map entry_of es; r_leak = bool_ leak; r_ctype = str ctype }
   | L [A "obs"; A "panic"] -> None
   | _ -> raise (Parse_error "obs")
 
 let show_resp (r : response) : string =
-  Printf.sprintf "status=%d allow=%s body=%s clen=%s etag=%s lm=%b leak=%b ms=[%s]"
-    (int_of_n r.status) (show_chars r.r_allow)
+  Printf.sprintf "status=%d ctype=%s allow=%s body=%s clen=%s etag=%s lm=%b leak=%b ms=[%s]"
+    (int_of_n r.status) (show_chars r.r_ctype) (show_chars r.r_allow)
     (match r.r_body with None -> "-" | Some b -> "'" ^ show_chars b ^ "'") (show_chars r.r_clen) (show_chars r.r_etag) r.r_lastmod r.r_leak
-    (String.concat "; " (List.map (fun e -> Printf.sprintf "%s d=%b l=%s t=%s lm=%b v=%b" (show_chars e.me_href) e.me_dir (show_chars e.me_clen) (show_chars e.me_etag) e.me_lastmod e.me_values) r.r_ms))
+    (String.concat "; " (List.map (fun e -> Printf.sprintf "%s ct=%s d=%b l=%s t=%s lm=%b v=%b" (show_chars e.me_href) (show_chars e.me_ctype) e.me_dir (show_chars e.me_clen) (show_chars e.me_etag) e.me_lastmod e.me_values) r.r_ms))
 
 let rec show_node = function
   | None -> "-"
